@@ -381,15 +381,18 @@ def rule_d4(ctx, facts, rule="D4"):
                       "a negative constant is stored back at %s" % neg[0].span))
     it = facts.body("map::HashMap::init_table")
     ev = evaluator(it)
+    # a yield_now that runs only when size_ctl was seen negative (any spelling of the comparison)
+    from .affine import le_at
+    scl = [c for c in it.calls if is_std_atomic(c) == "load" and ("map::HashMap", "size_ctl") in receiver_field(it, c, 0)]
     ok = False
-    for blk in range(len(it.blocks)):
-        cd = cond_of(it, blk)
-        if cd and cd["kind"] == "cmp" and cd["op"] == "Lt":
-            fb = ev.operand(cd["b"])
-            if fb is not TOP and fb.is_const() and fb.c == 0:
-                r = reach(it, [Point(cd["true"], 0)])
-                if any(callee_str(x).endswith("thread::yield_now") and x.point in r for x in it.calls):
-                    ok = True
+    for x in it.calls:
+        if callee_str(x).endswith("thread::yield_now") and not it.is_cleanup(x.b):
+            syms = [Aff.sym(("call", l.b)) for l in scl]
+            for l0 in range(len(it.locals)):
+                if any(f is not TOP and f in syms for _, f in ev.def_forms(l0)) and len(ev.def_forms(l0)) > 1:
+                    syms.append(Aff.sym(("phi", l0)))
+            if any(le_at(it, x.point, sy, -1) is not None for sy in syms):
+                ok = True
     ctx.inst(rule, it, "losers yield and retry", it.span, ok, "sc < 0 leads to yield_now and back to the loop head" if ok else
              "a thread that loses the initialisation race does not yield/retry")
 
